@@ -12,10 +12,13 @@ use std::convert::TryInto;
 fn parse_xref_section_from_stream(first_id: u32, mut num_entries: usize, width: &[usize], data: &mut &[u8], resolve: &impl Resolve) -> Result<XRefSection> {
     let mut entries = Vec::new();
     let [w0, w1, w2]: [usize; 3] = width.try_into().map_err(|_| other!("invalid xref length array"))?;
-    if num_entries * (w0 + w1 + w2) > data.len() {
+    // entries of zero bytes would let /Index ask for any number of entries without using up the data
+    let entry_len = w0.checked_add(w1).and_then(|n| n.checked_add(w2)).filter(|&n| n > 0)
+        .ok_or_else(|| other!("invalid xref stream entry widths {:?}", width))?;
+    if num_entries.checked_mul(entry_len).map_or(true, |n| n > data.len()) {
         if resolve.options().allow_xref_error {
             warn!("not enough xref data. truncating.");
-            num_entries = data.len() / (w0 + w1 + w2);
+            num_entries = data.len() / entry_len;
         } else {
             bail!("not enough xref data");
         }
